@@ -151,3 +151,58 @@ theorem minBE_length_ge {w v : Nat} (h : 256 ^ w ≤ v) : w < (minBE v).length :
     simp; omega
 
 end FFS
+
+namespace FFS
+
+theorem rev_ind {α : Type} {P : List α → Prop} (hnil : P [])
+    (hsnoc : ∀ l a, P l → P (l ++ [a])) : ∀ l, P l := by
+  intro l
+  rw [← List.reverse_reverse l]
+  induction l.reverse with
+  | nil => exact hnil
+  | cons a t ih => rw [List.reverse_cons]; exact hsnoc _ _ ih
+
+theorem fromBE_lt (bs : Bytes) : fromBE bs < 256 ^ bs.length := by
+  induction bs using rev_ind with
+  | hnil => simp [fromBE_nil]
+  | hsnoc bs b ih =>
+    rw [fromBE_append_single]
+    have hb := b.toNat_lt
+    simp only [List.length_append, List.length_singleton, Nat.pow_succ]
+    omega
+
+/-- a byte string without a leading zero is the minimal representation of its value -/
+theorem minBE_fromBE_canon (bs : Bytes) (h : ∀ b t, bs = b :: t → b ≠ 0) : minBE (fromBE bs) = bs := by
+  induction bs using rev_ind with
+  | hnil => simp [fromBE_nil, minBE_zero]
+  | hsnoc bs b ih =>
+    rw [fromBE_append_single]
+    have hb := b.toNat_lt
+    have hne : fromBE bs * 256 + b.toNat ≠ 0 := by
+      cases bs with
+      | nil =>
+        simp only [fromBE_nil, Nat.zero_mul, Nat.zero_add]
+        have := h b [] rfl
+        intro h0
+        apply this
+        exact UInt8.toNat_inj.mp (by simpa using h0)
+      | cons c t =>
+        have hc := h c (t ++ [b]) rfl
+        have : fromBE (c :: t) ≠ 0 := by
+          intro h0
+          have hih := ih (fun b' t' e => by
+            have := h b' (t' ++ [b]) (by rw [e]; rfl)
+            exact this)
+          rw [h0, minBE_zero] at hih
+          cases hih
+        omega
+    rw [minBE_pos hne]
+    have h1 : (fromBE bs * 256 + b.toNat) / 256 = fromBE bs := by omega
+    have h2 : (fromBE bs * 256 + b.toNat) % 256 = b.toNat := by omega
+    rw [h1, h2, UInt8.ofNat_toNat]
+    congr 1
+    apply ih
+    intro b' t' e
+    exact h b' (t' ++ [b]) (by rw [e]; rfl)
+
+end FFS
